@@ -21,6 +21,7 @@ type vProdCfg struct {
 	version           KafkaVersion
 	useClose          bool
 	closeAfter        int // stop submitting and close after this many messages (0: all of them)
+	holdFirst         bool // the first produce request is answered only after everything was submitted
 }
 
 type vEvent struct {
@@ -68,6 +69,8 @@ func vRunProducer(c vProdCfg) *vProdResult {
 	}
 	cl := vNewCluster(conf, c.brokers, c.parts, c.faults)
 	cl.faultMenu = c.faultMenu
+	cl.holdFirst = c.holdFirst
+	cl.release = make(chan struct{})
 	client := &vFakeClient{conf: conf, cl: cl}
 	vOverride("(*Broker).Produce", cl.produce)
 	vOverride("(*Broker).Close", func(b *Broker) error { return nil })
@@ -112,6 +115,7 @@ func vRunProducer(c vProdCfg) *vProdResult {
 		res.msgs = append(res.msgs, m)
 		p.Input() <- m
 	}
+	close(cl.release)
 	if c.useClose {
 		// Close() drains Successes itself and returns the collected errors
 		res.closeErr = p.Close()
